@@ -10,7 +10,7 @@ LEVEL = "translation_validation"
 ANCHOR_PREFIXES = ["reuse::", "context::", "transform::", "position::Position", "element::SvgElement::resolve_position", "element::", "expression::eval_vars"]
 BOUNDS = ("templates {rect, circle, ellipse at the origin; group of two shapes; symbol} in <specs>, parameterised by variables in geometry (symbolic) and in text/class (concrete strings); "
           "self-sufficient templates inline and in <defs> (before and after their use); self-sufficient group/symbol templates inline / in <defs> / in <specs> reused with an own transform (rotate, scale) and placed by x+y, x, cxy, x2+y2, xy with xy-loc; bindings to the empty string under a global variable, a group attribute or an outer instantiation of the same name; two-level nested instantiation; 1-3 instantiations with different symbolic bindings, optional id / class / style, placement by x+y, x, y, "
-          "xy, cxy or none; values k/2 in [-64,64], sizes k/2 in [0,32]; seeded generated group / symbol templates (quick 80, thorough 1200) of 2-4 items (shapes, text, polyline, '^'-relative shapes, nested groups, classes, expressions, inner reuse, if, loop) with twins produced by textual substitution; reuse of the previous element; templates nested in groups inside <specs>; reuse chains, computed template ids, templates reading $id")
+          "xy, cxy or none; values k/2 in [-64,64], sizes k/2 in [0,32]; seeded generated group / symbol templates (quick 80, thorough 1200) of 2-4 items (shapes, text, polyline, '^'-relative shapes, nested groups, classes, expressions, inner reuse, if, loop) with twins produced by textual substitution; reuse of the previous element; templates nested in groups inside <specs>; reuse chains, computed template ids, templates reading $id; line and text templates, two-valued and expression-valued compound attributes (open findings), group-template attribute defaults overridden by the reuse element, style on either / both sides, a template reusing itself under an <if> on a bound variable (depth 3)")
 ASSUMPTIONS = ["the hand-written twin: target element with the reuse attributes substituted for $variables, the reuse element's id/style/classes, the target id added as class, placed at x/y "
                "(shape: top-left of its bounding box; group/symbol: transform=translate(x, y), symbol rendered as <g>)", "class attributes are compared as sets",
                "instance independence: the geometry terms of one instance mention no variable of another instance (checked on the normalised term DAG)"]
